@@ -73,6 +73,13 @@ def rules(model, rep):
             pharg = k.value
     if pharg is None and len(scall[0].args) >= 5:
         pharg = scall[0].args[4]
+    if isinstance(pharg, ast.Name):
+        # a local alias of the list element:  ph = phase_list[phidx]
+        defs = [x.value for x in ast.walk(fn) if isinstance(x, ast.Assign) and len(x.targets) == 1 and is_name(x.targets[0], pharg.id)]
+        if len(defs) == 1 and isinstance(defs[0], ast.Subscript) and isinstance(defs[0].value, ast.Name):
+            pharg = defs[0]
+    if pharg is not None and not (isinstance(pharg, ast.Subscript) and isinstance(pharg.value, ast.Name)) and not (isinstance(pharg, ast.Constant)):
+        raise AnalysisError("batt_life: the phase handed to the solver (%s) is not an element of the phase list selected by an index: phase cycling not readable" % ast.unparse(pharg)[:50])
     if not (isinstance(pharg, ast.Subscript) and isinstance(pharg.value, ast.Name)):
         PLN, IXN = "phase_list", "phidx"
         for x in ast.walk(fn):
@@ -97,6 +104,8 @@ def rules(model, rep):
     if any(h not in hdr0 for h in need_h):
         raise AnalysisError("batt_life: result columns %s not found" % [h for h in need_h if h not in hdr0])
     TN, CAPN, VOLTN, RSN = (hdr0[h] for h in need_h)
+    if not all(isinstance(env0.get(x), ListV) for x in (TN, CAPN, VOLTN, RSN)):
+        raise AnalysisError("batt_life: the four log lists are not plain lists initialised before the loop: log not readable")
     # the loop condition on a symbolic state
     entry = dict(env0)
     entry[BST] = Sym(("name", "STATE"))
@@ -273,6 +282,8 @@ def rules(model, rep):
     ok = True
     pv = Sym(("call", "pfunc", ()))
     init = {"t": ListV([lift(0)]), "cap": ListV([Sym(("sub", pv, lift(0)))]), "volt": ListV([Sym(("sub", pv, lift(1)))]), "rs": ListV([Sym(("sub", pv, lift(2)))])}
+    if not all(isinstance(env0.get(x), ListV) for x in (TN, CAPN, VOLTN, RSN)):
+        raise AnalysisError("batt_life: the four log lists are not plain lists initialised before the loop: log not readable")
     for nm, want in init.items():
         got = env0.get({"t": TN, "cap": CAPN, "volt": VOLTN, "rs": RSN}[nm])
         if not (isinstance(got, ListV) and vkey(tuple(got.items)) == vkey(tuple(want.items))):
